@@ -176,6 +176,10 @@ func mutantsOf(c *Ctx, o accountant.Vertex, other accountant.Vertex, stranger, s
 	add("vertex.signer.replaced", func(v *accountant.Vertex) { v.SignerPublicAddress = stranger.Address() })
 	add("vertex.signer.shortkey", func(v *accountant.Vertex) { v.SignerPublicAddress = badKeyAddress(31) })
 	add("vertex.signer.reencoded-version", func(v *accountant.Vertex) { v.SignerPublicAddress = altAddress(sealer.Public, 1+byte(r%255)) })
+	add("vertex.signer.space-suffix", func(v *accountant.Vertex) { v.SignerPublicAddress += " " })
+	add("vertex.signer.newline-suffix", func(v *accountant.Vertex) { v.SignerPublicAddress += "\n" })
+	add("vertex.signer.tab-prefix", func(v *accountant.Vertex) { v.SignerPublicAddress = "\t" + v.SignerPublicAddress })
+	add("issuer.space-suffix", func(v *accountant.Vertex) { v.Transaction.IssuerAddress += " " })
 	add("vertex.signer.padded-one", func(v *accountant.Vertex) { v.SignerPublicAddress = "1" + v.SignerPublicAddress })
 	add("vertex.signer.padded-ones", func(v *accountant.Vertex) { v.SignerPublicAddress = "111" + v.SignerPublicAddress })
 	add("issuer.padded-one", func(v *accountant.Vertex) { v.Transaction.IssuerAddress = "1" + v.Transaction.IssuerAddress })
@@ -383,6 +387,28 @@ func init() {
 					info := map[string]interface{}{"section": "tamper", "scenario": "self-seal", "version_byte": ver}
 					c.Violate("C10", "self-sealed-via-reencoded-address", "a wallet sealed its own transfer under another encoding of its address and the vertex was admitted", info)
 					c.Violate("C04", "signer-address-reencoded", "self-sealed vertex under a re-encoded signer address admitted", info)
+				}
+			}
+		}
+		// a wallet the receiving node TRUSTS seals its own transfer: trust exempts from the funds walk, not from the
+		// rule that nobody seals what they issued
+		{
+			gen := genesisOf(a.ab)
+			t, _ := transaction.New("self", spice.Melange{Currency: 2}, nil, rec.Address(), recSigner{iss})
+			if v, err := accountant.NewVertex(t, gen.Hash, gen.Hash, 51, recSigner{iss}); err == nil {
+				b := w.NewNode()
+				w.syncFrom(a, b)
+				b.ab.AddTrustedNode(iss.Address())
+				before := ledgerKey(ptr(b.ab.VerifSnapshot()))
+				cp := v
+				aerr := b.ab.AddLeaf(w.ctx, &cp)
+				after := ledgerKey(ptr(b.ab.VerifSnapshot()))
+				b.cancel()
+				c.Rep.Evals++
+				c.Distinct("self-seal/trusted-sealer")
+				if aerr == nil || before != after {
+					c.Violate("C10", "self-sealed-by-trusted-wallet-admitted", fmt.Sprintf("a wallet the node trusts sealed its own transfer; AddLeaf: %v, ledger changed: %v", aerr, before != after),
+						map[string]interface{}{"section": "tamper", "scenario": "self-seal-trusted"})
 				}
 			}
 		}
